@@ -38,9 +38,9 @@ def run(res):
             src = httpcommon.HEADER + "From JR Require Import Frame FrameCases.\nDefinition c : scase := %s.\nDefinition M := Eval vm_compute in (if scase_ok c then [] else [scase_diag c]).\nPrint M.\n" % term
         else:
             block = bytes.fromhex(o["received"][0]) if o["received"] else b"null"
-            term = "{| cc_frames := %s; cc_block_id := %s; cc_vals := %s; cc_open := %s; cc_crashed := %s; cc_probe := %s |}" % (
+            term = "{| cc_frames := %s; cc_block_id := %s; cc_vals := %s; cc_open := %s; cc_crashed := %s; cc_probe := %s; cc_has_handler := %s |}" % (
                 frames_term(o["frames"]), vlib.pack_bytes(block), "[" + "; ".join("(%d)%%Z" % v for v in o["chan_vals"]) + "]",
-                vlib.coq_bool(o["chan_open"]), vlib.coq_bool(o["crashed_at"] >= 0), vlib.coq_bool(o["probe_ok"]))
+                vlib.coq_bool(o["chan_open"]), vlib.coq_bool(o["crashed_at"] >= 0), vlib.coq_bool(o["probe_ok"]), vlib.coq_bool(o["role"] == "client"))
             src = httpcommon.HEADER + "From JR Require Import Frame FrameCases.\nDefinition c : ccase := %s.\nDefinition M := Eval vm_compute in (if ccase_ok c then [] else [ccase_diag c]).\nPrint M.\n" % term
         jobs.append(("cases_C10f_%d" % i, src))
     diag_txt = {1: "crash disagreement", 2: "a received frame is not JSON / channel values differ", 3: "an expected response is missing / channel open-ness differs",
